@@ -144,3 +144,14 @@ Definition is_db_op (o : io) : bool :=
 (* restriction of a database to one (source, integration) pair *)
 Definition restrict (s i : N) (d : db) : db :=
   Db (filter (cur_of s i) (d_curs d)) (filter (row_of s i) (d_rows d)).
+
+(* ---------- PruneTask (shovel/task.go; cmd/shovel calls it with n = 200) ----------
+   delete from shovel.task_updates where (src_name, ig_name, num) not in
+   (the n newest rows of every (src_name, ig_name) partition, by num desc):
+   a cursor survives iff fewer than n cursors of its own pair are newer *)
+Definition newer_count (x : cursor) (cs : list cursor) : nat :=
+  length (filter (fun y => cur_of (c_src x) (c_ig x) y && (c_num x <? c_num y)) cs).
+Definition prune_keep (n : nat) (cs : list cursor) (x : cursor) : bool :=
+  Nat.ltb (newer_count x cs) n.
+Definition prune (n : nat) (d : db) : db :=
+  Db (filter (prune_keep n (d_curs d)) (d_curs d)) (d_rows d).
